@@ -23,23 +23,14 @@ Theorem c03_replay_modifier : forall E fresh m c c' evs modified,
 Proof. exact replay_modifier. Qed.
 Print Assumptions c03_replay_modifier.
 
-(* 'modified' is reported iff a change event was emitted iff the contact visibly changed.
-   MaxFieldChars = 0 is excluded: there a field value is truncated to the empty text, which is reported and
-   announced although nothing is stored (see c03_zero_limit_refuted) *)
+(* 'modified' is reported iff a change event was emitted iff the contact visibly changed (any MaxFieldChars,
+   0 included: a value truncated to nothing is no value) *)
 Theorem c03_modified_iff_changed : forall E fresh m c c' evs modified,
-  wf_contact E c -> mod_wf E m -> max_field_chars E <> 0 ->
+  wf_contact E c -> mod_wf E m ->
   apply E fresh m c = (c', evs, modified) ->
   (modified = true <-> has_change_event evs = true) /\ (modified = true <-> ~ same_contact c c').
 Proof. exact modified_iff_changed. Qed.
 Print Assumptions c03_modified_iff_changed.
-
-(* the premise on MaxFieldChars cannot be dropped *)
-Theorem c03_zero_limit_refuted :
-  exists E fresh m c c' evs,
-    wf_contact E c /\ mod_wf E m /\ max_field_chars E = 0
-    /\ apply E fresh m c = (c', evs, true) /\ same_contact c c'.
-Proof. exact zero_limit_refuted. Qed.
-Print Assumptions c03_zero_limit_refuted.
 
 (* applying the same modifier a second time (to the contact the first application left, group re-evaluation
    included) reports nothing, emits no change event and leaves the contact as it is.  [mod_env_ok] is what the
@@ -47,7 +38,7 @@ Print Assumptions c03_zero_limit_refuted.
    appending modifier makes valid; SetChannel is idempotent and keeps the scheme on the contact's URNs.  It is a
    computable test and is evaluated on every case of the correspondence run. *)
 Theorem c03_idempotent : forall E fresh fresh' m c c1 evs1 b1 c2 evs2 b2,
-  wf_contact E c -> mod_wf E m -> max_field_chars E <> 0 -> mod_env_ok E m c = true ->
+  wf_contact E c -> mod_wf E m -> mod_env_ok E m c = true ->
   apply E fresh m c = (c1, evs1, b1) ->
   apply E fresh' m c1 = (c2, evs2, b2) ->
   b2 = false /\ has_change_event evs2 = false /\ erase c2 = erase c1.
@@ -59,7 +50,7 @@ Print Assumptions c03_idempotent.
    second environment differs from the first only in parse_dt *)
 Theorem c03_idempotent_moving_clock_refuted :
   exists E p2 fresh m c c1 evs1 b1 c2 evs2,
-    wf_contact E c /\ mod_wf E m /\ max_field_chars E <> 0 /\ mod_env_ok E m c = true
+    wf_contact E c /\ mod_wf E m /\ mod_env_ok E m c = true
     /\ apply E fresh m c = (c1, evs1, b1)
     /\ apply (with_parse_dt E p2) (fresh + 1) m c1 = (c2, evs2, true).
 Proof. exact idempotent_moving_clock_refuted. Qed.
